@@ -1,0 +1,15 @@
+//go:build verif
+
+package daemon
+
+// VerifHook, when set, is called at the yield points named below. It exists only in builds with the
+// "verif" tag and lets a verification harness force a particular interleaving.
+//
+// Points: "BackgroundWorker:after-stopped-check" (between the unlocked IsStopped check and taking the lock).
+var VerifHook func(point string)
+
+func verifYield(point string) {
+	if h := VerifHook; h != nil {
+		h(point)
+	}
+}
